@@ -212,6 +212,50 @@ Check (vec_gspo_remove_one : forall l q,
   let '(l', b) := i_remove vec_first_impl l q in
   (b = true -> Permutation l (q :: l')) /\ (b = false -> l' = l /\ ~ In q l)).
 
+(* ---- 6. the extended alphabet: bulk constructors (from_quad_source / from_triple_source / collect_quads),
+        clones, bulk operations on failing sources, the length of the term index ---- *)
+Check ((fun I l => eq_refl) : forall I l, api_collect I l =
+  match api_insert_all I (i_init I) l 0 with (s, Some _) => Some s | (_, None) => None end).
+Check ((fun pl I tc s l fail => eq_refl) : forall pl I tc s l fail, xstep pl I tc s (XCollect l fail) =
+  match api_collect I l with
+  | None => (s, OErr)
+  | Some s' => if fail then (s, OFlag false) else (s', OFlag true)
+  end).
+Check ((fun pl cap g k sp l fail => eq_refl) : forall pl cap g k sp l fail, xspec_step pl cap g k sp (XCollect l fail) =
+  match spec_insert_all cap g (mkS [] []) l 0 with
+  | (_, None) => (sp, OErr)
+  | (sp', Some _) => if fail then (sp, OFlag false) else (sp', OFlag true)
+  end).
+Check ((fun pl cap g k sp => eq_refl) : forall pl cap g k sp, xspec_step pl cap g k sp XClone = (sp, OUnit)).
+Check ((fun pl cap g k sp => eq_refl) : forall pl cap g k sp, xspec_step pl cap g k sp XTermCount =
+  (sp, if k then OCount (N.of_nat (length (s_terms sp))) else OUnit)).
+Check ((fun o => eq_refl) : forall o, xop_wf o = match o with XBase o => op_wf o | _ => True end).
+Check (xstore_refines_set : forall c max pl xs,
+  set_config c = true -> Forall xop_wf xs ->
+  Forall2 out_sim (xrun pl c max xs) (xspec_run pl (cfg_cap c max) (cfg_isgraph c) (cfg_counted c) xs)).
+Check (xstep_sim : forall cap I (ok : impl_ok cap I) pl (tc : St I -> option N) (counted : bool),
+  (forall s, tc s = if counted then Some (N.of_nat (length (terms ok s))) else None) ->
+  forall s sp o, R cap I ok s sp -> xop_wf o ->
+  R cap I ok (fst (xstep pl I tc s o)) (fst (xspec_step pl cap (i_isgraph I) counted sp o))
+  /\ out_sim (snd (xstep pl I tc s o)) (snd (xspec_step pl cap (i_isgraph I) counted sp o))).
+Check (xrun_base : forall pl I tc ops s, xrun_from pl I tc s (map XBase ops) = run_from pl I s ops).
+Check (collect_is_insert_all : forall pl I tc l xs s0,
+  snd (api_insert_all I (i_init I) l 0) <> None ->
+  xrun_from pl I tc s0 (XCollect l false :: xs)
+  = OFlag true :: xrun_from pl I tc (fst (api_insert_all I (i_init I) l 0)) xs).
+Check (collect_then_base : forall pl I tc l ops s0,
+  snd (api_insert_all I (i_init I) l 0) <> None ->
+  xrun_from pl I tc s0 (XCollect l false :: map XBase ops) = OFlag true :: tl (run pl I (InsertAll l :: ops))).
+Check (collect_failure_keeps_store : forall pl I tc l fail s0,
+  snd (xstep pl I tc s0 (XCollect l fail)) <> OFlag true -> fst (xstep pl I tc s0 (XCollect l fail)) = s0).
+(* ---- 7. SimpleTermIndex used directly ---- *)
+Check (ti_reachable_inv : forall max ops, TInv max (ti_final max ops)).
+Check (ti_ensure_roundtrip : forall max ops t i,
+  snd (ti_step max (ti_final max ops) (TiEnsure t)) = Some i ->
+  let ti' := ti_final max (ops ++ [TiEnsure t]) in
+  get_index ti' t = Some i /\ get_term ti' i = t /\ i < tlen ti').
+Check (ti_is_intern : forall max ops, i2t (ti_final max ops) = ti_spec max [] ops).
+
 (* ================================================================================== *)
 (* non-vacuity                                                                           *)
 (* ================================================================================== *)
@@ -266,6 +310,35 @@ Example boundary_nonempty :
   nth 6 (spec_run [] (Some 5) false boundary_ops) OErr = OQuads [q4 5 2 5 None]
   /\ nth 5 (spec_run [] (Some 5) false boundary_ops) OUnit = OErr.
 Proof. split; vm_compute; reflexivity. Qed.
+
+(* the extended alphabet: a bulk constructor that succeeds, one that overflows (the store is kept),
+   a failing source after two items, a clone, the term count *)
+Definition demo_xops : list xop :=
+  [XBase (Insert (q4 1 2 3 None)); XTermCount;
+   XCollect [q4 1 2 3 None; q4 4 2 1 (Some 5); q4 1 2 3 None] false; XTermCount; XBase All;
+   XCollect [q4 1 2 3 None; q4 4 2 1 (Some 5); q4 6 2 1 None] false   (* a 6th term: SinkError *);
+   XBase All; XClone;
+   XInsertAllFail [q4 5 2 5 None; q4 1 2 3 None]; XCollect [q4 1 2 3 None] true; XRemoveAllFail [q4 1 2 3 None];
+   XBase All; XTermCount].
+Example demo_xops_wf : Forall xop_wf demo_xops.
+Proof. repeat constructor. Qed.
+Example demo_x_fast : xrun [] FastDataset 5 demo_xops =
+  [OFlag true; OCount 3; OFlag true; OCount 5; OQuads [q4 4 2 1 (Some 5); q4 1 2 3 None];
+   OErr; OQuads [q4 4 2 1 (Some 5); q4 1 2 3 None]; OUnit;
+   OFlag false; OFlag false; OFlag false; OQuads [q4 4 2 1 (Some 5); q4 5 2 5 None]; OCount 5].
+Proof. vm_compute. reflexivity. Qed.
+Example demo_x_all_configs :
+  forallb (fun c => list_eqb out_eqb (xrun [] c 5 demo_xops)
+                      (xspec_run [] (cfg_cap c 5) (cfg_isgraph c) (cfg_counted c) demo_xops))
+    [LightGraph; FastGraph; LightDataset; FastDataset; SetGraph; SetDataset] = true.
+Proof. vm_compute. reflexivity. Qed.
+(* SimpleTermIndex with MAX = 3: three terms fit, the fourth is refused, the default graph is index 3 *)
+Example demo_ti : ti_run_from 3 ti_empty
+  [TiLen; TiEnsure 7; TiEnsure 9; TiEnsure 7; TiGet 9; TiGet 8; TiEnsure 8; TiEnsure 6; TiClone; TiLen;
+   TiTerm 2; TiGraphName 3; TiGraphName 1; TiGnIndex None; TiGnIndex (Some 6); TiDefault]
+  = [Some 0; Some 0; Some 1; Some 0; Some 1; None; Some 2; None; None; Some 3;
+     Some 8; None; Some 9; Some 3; None; Some 3].
+Proof. vm_compute. reflexivity. Qed.
 
 (* why the invariant is needed: the Light dataset's upper bound [g, MAX, MAX, ZERO] would lose
    a row whose subject and predicate indexes were both MAX *)
@@ -325,3 +398,12 @@ Print Assumptions vec_content_is_list.
 Print Assumptions vec_remove_matching.
 Print Assumptions vec_retain_matching.
 Print Assumptions vec_gspo_remove_one.
+Print Assumptions xstore_refines_set.
+Print Assumptions xstep_sim.
+Print Assumptions xrun_base.
+Print Assumptions collect_is_insert_all.
+Print Assumptions collect_then_base.
+Print Assumptions collect_failure_keeps_store.
+Print Assumptions ti_reachable_inv.
+Print Assumptions ti_ensure_roundtrip.
+Print Assumptions ti_is_intern.
